@@ -218,6 +218,10 @@ func (msg MsgStake) ValidateBasic() error {
 	if err := ValidateCoins("Amount", msg.Amount); err != nil {
 		return err
 	}
+	// ValidateCoins goes through sdk.NewCoins, which drops a zero coin
+	if !msg.Amount.IsPositive() {
+		return errorsmod.Wrap(sdkerrors.ErrInvalidCoins, "The Amount should be greater than zero")
+	}
 	return nil
 }
 
@@ -255,6 +259,10 @@ func (msg MsgUnstake) ValidateBasic() error {
 
 	if err := ValidateCoins("Amount", msg.Amount); err != nil {
 		return err
+	}
+	// ValidateCoins goes through sdk.NewCoins, which drops a zero coin
+	if !msg.Amount.IsPositive() {
+		return errorsmod.Wrap(sdkerrors.ErrInvalidCoins, "The Amount should be greater than zero")
 	}
 	return nil
 }
